@@ -11,7 +11,7 @@ use crate::{
     procedures::ExecutionErrorPayload,
     value::Value,
     vm::{
-        runtime::cao_lang_object::{CaoLangObjectBody, ObjectGcGuard},
+        runtime::cao_lang_object::{CaoLangObjectBody, GcMarker, ObjectGcGuard},
         Vm,
     },
 };
@@ -177,6 +177,8 @@ pub fn native_minmax<T, const LESS: bool>(
                     // the key function may modify the table: iterate over a copy of the rows,
                     // never over the storage of the live table
                     let rows: Vec<(Value, Value)> = t.iter().map(|(k, v)| (*k, *v)).collect();
+                    // it may also remove rows: the copies keep their keys and values alive
+                    let _row_guards = guard_rows(&rows);
                     let Some(first) = rows.first() else {
                         return Ok(Value::Nil);
                     };
@@ -215,12 +217,24 @@ pub fn native_minmax<T, const LESS: bool>(
     }
 }
 
-/// Protects an object value from the collector for as long as the guard lives
+/// Protects an object value from the collector for as long as the guard lives.
+/// An object that is already protected gets no second guard: guards do not nest, the first one
+/// to be dropped would end the protection
 fn guard_value(value: Value) -> Option<ObjectGcGuard> {
     match value {
-        Value::Object(o) => Some(ObjectGcGuard::new(o)),
+        Value::Object(o) if !matches!(unsafe { o.as_ref() }.marker, GcMarker::Protected) => {
+            Some(ObjectGcGuard::new(o))
+        }
         _ => None,
     }
+}
+
+/// Protects the keys and values of copied table rows
+fn guard_rows(rows: &[(Value, Value)]) -> Vec<ObjectGcGuard> {
+    rows.iter()
+        .flat_map(|(k, v)| [*k, *v])
+        .filter_map(guard_value)
+        .collect()
 }
 
 pub fn native_sorted<T>(
@@ -238,6 +252,8 @@ pub fn native_sorted<T>(
                     // the key function may modify the table: iterate over a copy of the rows,
                     // never over the storage of the live table
                     let rows: Vec<(Value, Value)> = t.iter().map(|(k, v)| (*k, *v)).collect();
+                    // it may also remove rows: the copies keep their keys and values alive
+                    let _row_guards = guard_rows(&rows);
                     let mut result = Vec::with_capacity(rows.len());
                     // the computed keys are only referenced from here: keep them alive
                     let mut _key_guards = Vec::with_capacity(rows.len());
